@@ -16,18 +16,25 @@ for d in "${ARGS[@]}"; do
   crate=$(grep -oE "(breakpad-symbols|minidump-processor|minidump-unwind|minidump-common|minidump-stackwalk|minidump-synth|minidump)/tests" $d/AGENT_README.md | head -1 | cut -d/ -f1)
   [ -z "$crate" ] && crate=breakpad-symbols
   name=$(basename $demo .rs)
+  feat=""; grep -q -- "--features http" $d/AGENT_README.md && feat="--features http"
   cd $WT && git checkout -q -- . && git clean -fdq -- '*/tests/demo_*.rs' 2>/dev/null
   mkdir -p $WT/$crate/tests && cp $demo $WT/$crate/tests/
-  without=$(cd $WT && cargo test -p $crate --offline --test $name 2>&1 | grep -E "^test result" | head -1)
+  without=$(cd $WT && cargo test -p $crate $feat --offline --test $name 2>&1 | grep -E "^test result" | tail -1)
   if ! git -C $WT apply $d/patch.diff; then echo "{\"applies\": false}" > $d/confirm.json; continue; fi
-  with=$(cd $WT && cargo test -p $crate --offline --test $name 2>&1 | grep -E "^test result|error(\[|:)" | head -1)
+  with=$(cd $WT && cargo test -p $crate $feat --offline --test $name 2>&1 | grep -E "^test result|^error(\[E|: could not compile)" | tail -1)
   rm -f $WT/$crate/tests/$name.rs
   failing=$(cd $WT && cargo test --workspace --no-fail-fast --offline 2>&1 | grep -E "^test .* FAILED$|^error(\[E|: could not compile)" | sort | tr '\n' ' ')
   git -C $WT checkout -q -- .
   python3 - "$d" "$crate" "$name" "$without" "$with" "$failing" "$(cat /tmp/wt-confirm.baseline)" <<'PY'
 import json,sys
 d,crate,name,without,with_,failing,base=sys.argv[1:8]
-ok = ("ok." in without) and ("FAILED" in with_) and failing.strip()==base.strip()
+# the demonstration must pass (or at least fail less) without the change and fail with it; the suite must be at its baseline
+import re
+def failed(line):
+    m = re.search(r"(\d+) failed", line)
+    return int(m.group(1)) if m else None
+fw, fc = failed(without), failed(with_)
+ok = fw is not None and fc is not None and fc > fw and failing.strip()==base.strip()
 json.dump({"demo_crate":crate,"demo":name,"demo_without_change":without,"demo_with_change":with_,
            "suite_failures_with_change":failing.strip(),"suite_failures_baseline":base.strip(),"confirmed":ok}, open(d+"/confirm.json","w"), indent=1)
 print(d.split('/')[-1], "CONFIRMED" if ok else "NOT-CONFIRMED", "|", without, "|", with_, "|", failing.strip())
